@@ -1,8 +1,9 @@
 """Native replay corpus for C20: the real cpp_gen building blocks against specs/cpp_gen.py."""
 import itertools
+import os
 import sys
 
-sys.path.insert(0, '/verif/native')
+sys.path.insert(0, os.path.dirname(os.path.abspath(__file__)))
 import mkmodel  # noqa: E402
 
 mkmodel.assert_tree()
